@@ -13,8 +13,8 @@ def first_mux():
                 if type(i) is rs.OnNextMux:
                     value = i.store.get_state(state, i.key)
                     if value is False:
-                        observer.on_next(i)
                         i.store.set_state(state, i.key, True)
+                        observer.on_next(i)
 
                 elif type(i) is rs.OnCreateMux:
                     i.store.add_key(state, i.key)
